@@ -2,7 +2,7 @@
    Property theorems only: each is closed by `exact` of a lemma proved in C06/Proofs.v (which builds on C07). *)
 From Coq Require Import List ZArith Bool.
 Import ListNotations.
-From V Require Import Base.Bytes Gen.RelayConsts C07.Model C07.Proofs C06.Model C06.Proofs.
+From V Require Import Base.Bytes Gen.RelayConsts C07.Model C07.Proofs C06.Model C06.Proofs C06.Report.
 Local Open Scope Z_scope.
 
 (* Output follows the command, and the report is the read-back (_supla_esp_channel_set_value, used by the set-value
@@ -73,3 +73,39 @@ Example C06_plain_channel_answered :
     [CVal 1 1; CRes 1 77 1; CVal 1 0; CRes 1 78 1].
 Proof. exact plain_answered_thm. Qed.
 Print Assumptions C06_plain_channel_answered.
+
+(* The last reported value equals the real state whenever the device is idle — as an invariant of whole histories:
+   on every board with pairwise different gpios and channels (wf6), for every list of events after registration
+   (iterates, set-value and group set-value requests with any value and duration, button / motion / sensor callbacks,
+   timer expiries, staircase changes; both variants of countdown()), under H_queue_room (no call was refused anywhere in
+   the trace, i.e. outside the two known-finding classes): whenever the out-queue and the out buffer are empty, the last
+   VALUE_CHANGED on the wire for each relay channel is the logical level of its pin (pin xor active-low); a relay whose
+   channel was never reported since registration still has the level it had at registration. *)
+Theorem C06_last_report_equals_state_except_known : forall e c, wf6 c -> forall evs,
+  (forall x, In x evs -> x <> CReg) ->
+  let s := run_reg e c evs in
+  new_drops (outs s) = [] -> queue s = [] -> obuf s = [] ->
+  forall r, In r (c_relays (c6 c)) ->
+    match lastval (wired (outs s)) (r_chan r) with
+    | Some v => v = b2z (level r s)
+    | None => level r s = level r (sreg6 e c)
+    end.
+Proof. exact last_report_idle_thm. Qed.
+Print Assumptions C06_last_report_equals_state_except_known.
+
+(* the invariant behind it holds at every point of such a history, idle or not, for the calls accepted so far
+   (on the wire, in the out buffer, in the queue) *)
+Theorem C06_reports_follow_outputs : forall e c, wf6 c -> forall evs,
+  (forall x, In x evs -> x <> CReg) ->
+  let s := run_reg e c evs in
+  new_drops (outs s) = [] ->
+  SlotRel (c6 c) s /\ reg s = true /\ rep c (sreg6 e c) s.
+Proof. exact last_report_thm. Qed.
+Print Assumptions C06_reports_follow_outputs.
+
+Example C06_history_hypotheses_satisfiable :
+  wf6 cd_board /\ (forall x, In x plain_evs -> x <> CReg) /\ new_drops (outs (run_reg false cd_board plain_evs)) = [] /\
+  queue (run_reg false cd_board plain_evs) = [] /\ obuf (run_reg false cd_board plain_evs) = [] /\
+  lastval (wired (outs (run_reg false cd_board plain_evs))) 1 = Some 0.
+Proof. exact (conj wf6_cd_board plain_history_ok). Qed.
+Print Assumptions C06_history_hypotheses_satisfiable.
